@@ -189,7 +189,7 @@ func runCallGoFunc(r *rand.Rand, variant string) {
 				rep.Count("callGoFunc:param:" + valClass(k.vt, x))
 				if fmt.Sprintf("0x%x", got) != want {
 					rep.Violate(hx.Violation{Kind: "correspondence", Signature: "C08:callGoFunc-param-differs-from-model:" + k.kind,
-						What: "parameter conversion of callGoFunc differs from the Lean decodeParam (variant " + variant + ")",
+						What:  "parameter conversion of callGoFunc differs from the Lean decodeParam (variant " + variant + ")",
 						Input: map[string]any{"kind": k.kind, "slot": fmt.Sprintf("0x%x", raw)}, Expected: want, Actual: fmt.Sprintf("0x%x", got)})
 				}
 				if got != x {
@@ -198,7 +198,7 @@ func runCallGoFunc(r *rand.Rand, variant string) {
 						sig = "F6:reflect-float32-param-snan-quieted"
 					}
 					rep.Violate(hx.Violation{Kind: "impl-violation", Signature: sig,
-						What: fmt.Sprintf("callGoFunc: %s parameter from slot 0x%x arrived as 0x%x", k.kind, raw, got),
+						What:  fmt.Sprintf("callGoFunc: %s parameter from slot 0x%x arrived as 0x%x", k.kind, raw, got),
 						Input: map[string]any{"kind": k.kind, "slot": fmt.Sprintf("0x%x", raw)}, Expected: fmt.Sprintf("0x%x", x), Actual: fmt.Sprintf("0x%x", got)})
 				}
 			}
@@ -209,7 +209,7 @@ func runCallGoFunc(r *rand.Rand, variant string) {
 			rep.Count("callGoFunc:result:" + valClass(k.vt, x))
 			if fmt.Sprintf("0x%x", got) != want {
 				rep.Violate(hx.Violation{Kind: "correspondence", Signature: "C08:callGoFunc-result-differs-from-model:" + k.kind,
-					What: "result conversion of callGoFunc differs from the Lean encodeResult (variant " + variant + ")",
+					What:  "result conversion of callGoFunc differs from the Lean encodeResult (variant " + variant + ")",
 					Input: map[string]any{"kind": k.kind, "value": fmt.Sprintf("0x%x", x)}, Expected: want, Actual: fmt.Sprintf("0x%x", got)})
 			}
 			if got != x {
@@ -221,7 +221,7 @@ func runCallGoFunc(r *rand.Rand, variant string) {
 					sig = "F5:reflect-int32-result-slot-sign-extended"
 				}
 				rep.Violate(hx.Violation{Kind: "impl-violation", Signature: sig,
-					What: fmt.Sprintf("callGoFunc: %s result 0x%x stored as slot 0x%x", k.kind, x, got),
+					What:  fmt.Sprintf("callGoFunc: %s result 0x%x stored as slot 0x%x", k.kind, x, got),
 					Input: map[string]any{"kind": k.kind, "value": fmt.Sprintf("0x%x", x)}, Expected: fmt.Sprintf("0x%x", x), Actual: fmt.Sprintf("0x%x", got)})
 			}
 			// the consequence in wasm (model): the interpreter compares the whole slot
